@@ -50,7 +50,11 @@ type Ceiling struct {
 
 // Call the function with the arguments provided.
 func (f *Ceiling) Call(s *slip.Scope, args slip.List, depth int) slip.Object {
-	return ceiling(s, f, args, depth)
+	values := ceiling(s, f, args, depth)
+	values[0] = reduceNumber(values[0])
+	values[1] = reduceNumber(values[1])
+
+	return values
 }
 
 func ceiling(s *slip.Scope, f slip.Object, args slip.List, depth int) slip.Values {
